@@ -576,6 +576,7 @@ func runC19(r *Run) {
 			return
 		}
 		sc := scs[i]
+		r.Note(i, c19ScenarioJSON(sc))
 		e := c19Explore(sc, B, false, 200000)
 		if e.capped {
 			r.Cap("per-scenario execution cap (200000) hit: that scenario is exhaustive only below the cap")
